@@ -1121,6 +1121,78 @@ pub fn randomness_algebra(rec: &mut Rec, depth: usize) {
     }
 }
 
+/// Labelled polynomials changed IN PLACE (`polynomial_mut`): a labelled polynomial built around one shape and then
+/// given another (degree raised, lowered, unchanged) commits exactly like a fresh labelled polynomial of the final
+/// shape - the commitment is a function of the polynomial the object holds NOW (same RNG stream: commitment and state
+/// bit for bit; a shape the key refuses is refused either way), and its opening is accepted.
+pub fn in_place_polynomials<S: Sch>(rec: &mut Rec) {
+    let cfg = crate::scope::slice_b::<S>();
+    let shapes = S::shapes(&cfg, rec.seed);
+    // at most six shapes: the first four (zero, constant, ...) and the last two (dense ones)
+    let mut pick: Vec<usize> = (0..shapes.len().min(4)).collect();
+    for k in [shapes.len().saturating_sub(2), shapes.len() - 1] {
+        if !pick.contains(&k) {
+            pick.push(k);
+        }
+    }
+    let base = crate::checks::c01::slice_b_polys::<S>(&cfg, rec.seed);
+    let opts: Vec<(Option<usize>, Option<usize>)> = if base[1].degree_bound().is_some() || base[1].hiding_bound().is_some() { vec![(None, None), (base[1].degree_bound(), base[1].hiding_bound())] } else { vec![(None, None)] };
+    let mut keys: Option<Keys<S>> = None;
+    for (bound, hid) in opts {
+        for a in pick.iter().copied() {
+            for b in pick.iter().copied() {
+                if a == b {
+                    continue;
+                }
+                let id = format!("{}/in-place/{}/from={}/to={}/bound={:?}/h={:?}", S::NAME, cfg.id(), shapes[a].0, shapes[b].0, bound, hid);
+                if !rec.take(&id) {
+                    continue;
+                }
+                if keys.is_none() {
+                    keys = build_keys::<S>(&cfg, rec.seed).ok();
+                }
+                let keys = match &keys {
+                    Some(k) => k,
+                    None => return,
+                };
+                rec.dim("scheme", S::NAME);
+                let fresh = lp::<S>("p", shapes[b].1.clone(), bound, hid);
+                let mut changed = lp::<S>("p", shapes[a].1.clone(), bound, hid);
+                *changed.polynomial_mut() = shapes[b].1.clone();
+                let seed = rec.seed;
+                let commit = |q: &LP<S>| {
+                    let mut rng = seed_rng(seed, 0);
+                    do_commit::<S>(&keys.ck, &[q.clone()], Some(&mut rng as &mut dyn RngCore))
+                };
+                rec.op(2);
+                match (commit(&fresh), commit(&changed)) {
+                    (Ok((c1, s1)), Ok((c2, s2))) => {
+                        rec.class("in-place-committed");
+                        if ser(c1[0].commitment()) != ser(c2[0].commitment()) || ser(&s1[0]) != ser(&s2[0]) {
+                            viol(rec, S::NAME, "commit/in-place-polynomial", &id, format!("a labelled polynomial built around `{}` and given `{}` in place commits differently from a fresh labelled polynomial of `{}`", shapes[a].0, shapes[b].0, shapes[b].0));
+                            continue;
+                        }
+                        let z = S::points(&cfg, rec.seed)[0].1.clone();
+                        let c = Committed::<S> { polys: vec![changed.clone()], comms: c2, states: s2 };
+                        if let Ok(s) = open_single::<S>(keys, &c, &[0], &z, 0, rec.seed, 0) {
+                            let d = check_single::<S>(keys, &[&c.comms[0]], &z, &s.values, &s.proof, 0, rec.seed, 0);
+                            rec.op(2);
+                            if !d.accepted() {
+                                viol(rec, S::NAME, "check/in-place-polynomial", &id, format!("opening of a labelled polynomial changed in place is not accepted: {}", d.short()));
+                            }
+                        } else {
+                            viol(rec, S::NAME, "open/in-place-polynomial", &id, "open failed for a labelled polynomial changed in place".into());
+                        }
+                    }
+                    (Err(_), Err(_)) => rec.class("in-place-refused-both"),
+                    (Ok(_), Err(o)) => viol(rec, S::NAME, "commit/in-place-polynomial", &id, format!("the fresh labelled polynomial is committed, the one changed in place is refused: {}", o.short())),
+                    (Err(o), Ok(_)) => viol(rec, S::NAME, "commit/in-place-polynomial", &id, format!("the fresh labelled polynomial is refused ({}), the one changed in place is committed", o.short())),
+                }
+            }
+        }
+    }
+}
+
 pub fn run(rec: &mut Rec) {
     let max_len = if rec.thorough() { 5 } else { 4 };
     group_scheme::<SMar>(rec, max_len);
@@ -1137,5 +1209,8 @@ pub fn run(rec: &mut Rec) {
     group_ladder::<SPst>(rec);
     special_ladder(rec);
     folding_commitments(rec);
+    crate::for_each_scheme!(S, {
+        in_place_polynomials::<S>(rec);
+    });
     randomness_algebra(rec, if rec.thorough() { 3 } else { 2 });
 }
